@@ -494,6 +494,28 @@ impl ASN1Type {
         tlds: &BTreeMap<String, ToplevelDefinition>,
         args: &[Parameter],
     ) -> Result<ASN1Type, GrammarError> {
+        // A parameterized type that instantiates itself in its own body (`P {T} ::= SEQUENCE
+        // { next P {T} OPTIONAL }`) would be expanded without end: report it instead.
+        thread_local! {
+            static INSTANTIATION_DEPTH: std::cell::Cell<usize> = const { std::cell::Cell::new(0) };
+        }
+        struct DepthGuard;
+        impl Drop for DepthGuard {
+            fn drop(&mut self) {
+                INSTANTIATION_DEPTH.with(|d| d.set(d.get() - 1));
+            }
+        }
+        let depth = INSTANTIATION_DEPTH.with(|d| {
+            d.set(d.get() + 1);
+            d.get()
+        });
+        let _guard = DepthGuard;
+        if depth > 64 {
+            return Err(grammar_error!(
+                NotYetInplemented,
+                "Recursive instantiation of parameterized type {identifier} is currently unsupported!"
+            ));
+        }
         match tlds.get(identifier) {
             Some(ToplevelDefinition::Type(ToplevelTypeDefinition {
                 ty,
